@@ -278,6 +278,15 @@ func (g *Gen) render(b *block, noIndent bool) []mline {
 				continue
 			}
 			sp := 1 + g.pick(4)
+			if item[0].k == kIndented {
+				sp = 1 // marker, one space, then the four columns of the code block
+			}
+			blankStart := b.blankStart[i]
+			if blankStart {
+				// the marker stands alone on its line: the content column is one past the marker whatever follows it
+				out = append(out, mline{s: ind + marker + strings.Repeat(" ", g.pick(3))})
+				sp = 1
+			}
 			w := len(marker) + sp
 			var inner []mline
 			if b.tight {
@@ -288,7 +297,7 @@ func (g *Gen) render(b *block, noIndent bool) []mline {
 			pad := strings.Repeat(" ", len(ind)+w)
 			for j, l := range inner {
 				switch {
-				case j == 0:
+				case j == 0 && !blankStart:
 					nl := mline{s: ind + marker + strings.Repeat(" ", sp) + l.s}
 					if l.tabN > 0 {
 						nl.tabAt, nl.tabN = l.tabAt+len(ind)+len(marker)+sp, l.tabN
